@@ -254,6 +254,7 @@ class PlanRun:
         actions = list(run_spec["actions"])
         foreign_budget = run_spec.get("foreign_ops", 0)
         abort_at = run_spec.get("abort_after")  # raise inside the block after this many actions
+        abort_delay = run_spec.get("abort_delay", 0)
         nact = 0
         waiter = None
         aborted = False
@@ -266,9 +267,15 @@ class PlanRun:
                 if actions and self.action_enabled(actions[0]):
                     choices.append(("action", 0, "action:" + ":".join(str(a) for a in actions[0])))
                 if abort_at is not None and nact >= abort_at and not aborted:
-                    aborted = True
+                    # the block raises here, or abort_delay scheduling steps later (what it submitted last gets started)
                     actions = []
-                    break
+                    choices = [c for c in choices if c[0] != "action"]
+                    if abort_delay > 0 and choices:
+                        abort_delay -= 1
+                    else:
+                        aborted = True
+                        actions = []
+                        break
                 if not actions and waiter is None and rr["end"] == "normal":
                     choices.append(("wait", 0, "start-wait"))
                 for fa in self.foreign_choices(foreign_budget):
@@ -278,6 +285,12 @@ class PlanRun:
                         choices.append(("orphan", pid, f"orphan-exit:{p.jobkey}"))
                 if not choices:
                     break
+                lazy = run_spec.get("lazy_actions")
+                if lazy and eng.decisions is None and eng.rng.random() < lazy:
+                    # a block that submits slowly: what is already scheduled makes progress between two submissions
+                    rest = [c for c in choices if c[0] != "action"]
+                    if rest:
+                        choices = rest
                 c = eng.choose(choices)
                 if c is None:
                     break
